@@ -16,6 +16,11 @@ mod key;
 mod val;
 mod vfile;
 
+#[cfg(feature = "verif_hooks")]
+pub(crate) use key::verif_sweep_key_slot_sizes;
+#[cfg(feature = "verif_hooks")]
+pub(crate) use val::verif_sweep_value_slot_sizes;
+
 //#[cfg(feature = "htx")]
 mod htx;
 
